@@ -56,7 +56,42 @@ Fixpoint decode_go (s : str) (quad : list N) (pads : nat) (out : list N) : optio
             end
         end
   end.
-Definition decode (s : str) : option (list N) := decode_go s [] 0 [].
+(* the same with the linear-time reversal (List.rev is quadratic): this is the one the models run *)
+Fixpoint decode_fast (s : str) (quad : list N) (pads : nat) (out : list N) : option (list N) :=
+  match s with
+  | [] => match quad with [] => Some (rev_append out []) | _ => None end
+  | c :: s' =>
+      if c =? PAD then
+        match quad with
+        | [s1; s0] => if Nat.leb 1 pads then Some (rev_append ((s0 * 4 + s1 / 16) :: out) [])
+                      else decode_fast s' quad (S pads) out
+        | [s2; s1; s0] => Some (rev_append (((s1 mod 16) * 16 + s2 / 4) :: (s0 * 4 + s1 / 16) :: out) [])
+        | _ => decode_fast s' quad pads out
+        end
+      else
+        match dec_char c with
+        | None => decode_fast s' quad pads out
+        | Some v =>
+            match quad with
+            | [s2; s1; s0] =>
+                decode_fast s' [] 0 (((s2 mod 4) * 64 + v) :: ((s1 mod 16) * 16 + s2 / 4) :: (s0 * 4 + s1 / 16) :: out)
+            | _ => decode_fast s' (v :: quad) 0 out
+            end
+        end
+  end.
+
+Lemma decode_fast_eq s : forall quad pads out, decode_fast s quad pads out = decode_go s quad pads out.
+Proof.
+  induction s as [|c s IH]; intros quad pads out; cbn [decode_fast decode_go].
+  - destruct quad; [now rewrite rev_alt|reflexivity].
+  - destruct (c =? PAD).
+    + destruct quad as [|q0 [|q1 [|q2 [|q3 r]]]]; try apply IH.
+      * destruct (Nat.leb 1 pads); [now rewrite rev_alt|apply IH].
+      * now rewrite rev_alt.
+    + destruct (dec_char c); [|apply IH]. destruct quad as [|q0 [|q1 [|q2 [|q3 r]]]]; apply IH.
+Qed.
+
+Definition decode (s : str) : option (list N) := decode_fast s [] 0 [].
 
 Definition is_byte (b : N) : bool := b <? 256.
 Arguments N.ltb : simpl never.
@@ -120,7 +155,7 @@ Proof.
 Qed.
 
 Corollary b64_roundtrip b : forallb is_byte b = true -> decode (encode b) = Some b.
-Proof. intros H. unfold decode. now rewrite decode_encode. Qed.
+Proof. intros H. unfold decode. rewrite decode_fast_eq. now rewrite decode_encode. Qed.
 
 (* length of an encoding: 4 * ceil(n / 3) *)
 Lemma encode_length : forall b, length (encode b) = (4 * ((length b + 2) / 3))%nat.
